@@ -335,6 +335,11 @@ func genC05(r *Rng, tier string, emit func(Case)) {
 		if r.Intn(8) == 0 {
 			ver = r.Bytes(4)
 		}
+		if r.Intn(3) == 0 {
+			// version bytes that start with zero bytes: the serialisation then starts with '1' characters and is
+			// shorter than the usual 111 / 112 characters
+			ver = [][]byte{{0, 0, 0, 0}, {0, 0, 1, 0x23}, {0, 0, 0, 7}, {0, 1, 2, 3}, {0xff, 0xff, 0xff, 0xff}}[r.Intn(5)]
+		}
 		var key []byte
 		if priv {
 			key = r.Bytes(32)
